@@ -64,6 +64,7 @@ def run(spec):
       outcomes.append('rejected')
     elif res[0] == 'ValueError':
       outcomes.append('ValueError')
+      cls.append('VE:' + res[1][:40])
     elif res[1].startswith('build:'):
       outcomes.append('build-crash')     # construction is outside C09 (C15/C16/C17 decide it)
     else:
